@@ -206,6 +206,12 @@ def run(ctx, chk):
         got = {name: C04.image_value(img, off, w) for off, w, name in want}
         chk.ob('C17.Y6', 'wipe:writes-follow-header', all(v is not None for v in got.values()) and img.total is not None, inf['where'],
                'the image written to the new file holds, at the header offsets %s: %s (total %s bytes)' % (want, got, img.total))
+        # the file a cold start creates is the documented layout in full: its length, the size it declares in the
+        # header and the length the daemon maps are the total PROTOCOL.md publishes
+        chk.ob('C17.Y6', 'wipe:length-is-the-documented-total', img.total == d['total'] and got.get('segsize') == d['total'] and
+               inf['map_len'] == d['total'], inf['where'],
+               'new segment file: %s bytes written, Segment Size field %s, %s bytes mapped by the daemon; PROTOCOL.md documents %d bytes' % (
+                   img.total, got.get('segsize'), inf['map_len'], d['total']))
     chk.tables['doc_layout'] = [{k: v for k, v in f.items()} for f in d['fields']]
     chk.tables['c_records'] = {k: v.get('layout') for k, v in cf.records.items()}
 
